@@ -62,13 +62,19 @@ def gen_cases(rng, tier, ovh, sizes):
     alphabet = [("P", k, n, 0) for k in KEYS for n in (tiny, medium, huge)] + [("G", k) for k in KEYS]
     cases = []
     cid = 0
-    maxlen = 4 if tier == "thorough" else 3
+    maxlen = 5 if tier == "thorough" else 3
     for L in range(0, maxlen + 1):
         for seq in itertools.product(alphabet, repeat=L):
             ops = number_bitmaps(list(seq))
-            for cap in caps:
+            # length 5 (thorough): the three capacities around one and two entries
+            for cap in (caps if L <= 4 else caps[2:5]):
                 cid += 1
                 cases.append(Case("e%d" % cid, cap, ops, KEYS, "exhaustive"))
+    # huge capacities (a cache meant to be unbounded): nothing may ever be evicted
+    for cap in ((1 << 63) - 1, 1 << 63, (1 << 64) - 1):
+        for seq in itertools.product(alphabet, repeat=2):
+            cid += 1
+            cases.append(Case("h%d" % cid, cap, number_bitmaps(list(seq)), KEYS, "huge-capacity"))
     n_exh = len(cases)
     # sampled sequences one step beyond the exhaustive length
     for _ in range(3000 if tier == "quick" else 20000):
@@ -93,6 +99,8 @@ def gen_cases(rng, tier, ovh, sizes):
         base = sum(sizes[n] + ovh for n in nel[:5])
         cap = rng.choice([0, 1, ovh, sizes[nel[2]] + ovh, base, base * 2, sizes[nel[-1]] + ovh, 3 * (sizes[nel[-1]] + ovh), 1 << 24])
         cap = max(0, cap + rng.choice([-1, 0, 0, 1]))
+        if rng.random() < 0.12:
+            cap = rng.choice([(1 << 63) - 1, 1 << 63, (1 << 64) - 1, (1 << 32), (1 << 31) - 1])   # "unbounded" capacities
         cid += 1
         cases.append(Case("r%d" % cid, cap, ops, PROBE16, "random"))
     return cases, n_exh
